@@ -727,7 +727,7 @@ fn ref_digits(bits: usize, base: u64, digits: &[u64], be: bool) -> TextDen {
 /// Fault labels are `&'static str` in counters; plan notes are owned strings from a fixed set.
 pub fn leak_label(s: &str) -> &'static str {
     const KNOWN: &[&str] = &[
-        "T-TRUNC", "T-SUB", "T-INS", "T-MULTIBYTE", "T-UNDERSCORE", "T-CASE", "T-PREFIX", "T-RADIX", "T-DIGIT", "T-OVER",
+        "T-TRUNC", "T-SUB", "T-INS", "T-MULTIBYTE", "T-WIDECHAR", "T-UNDERSCORE", "T-CASE", "T-PREFIX", "T-RADIX", "T-DIGIT", "T-OVER",
         "T-NONE", "G-DROP", "G-CORRUPT", "G-APPEND", "G-OVER", "G-BASE", "G-NONE", "E-STREAM", "E-DRY", "E-FAIL", "E-SEED",
         "E-WALK", "S-FLAG", "S-ALIEN", "S-ERR", "S-FORM", "P-SKEW", "N-NEG",
     ];
